@@ -231,6 +231,7 @@ def strategy(ctx):
             'probes': st.lists(st.text(ALPHA, min_size=1, max_size=8), max_size=6),
             # an API-mode build costs a gcc run: about one case in 20, thorough tier only
             'api': (st.sampled_from([False] * 19 + [True]) if ctx.tier == 'thorough' else st.just(False)),
+            'file': st.sampled_from([False, False, True]),
         })
     return names().flatmap(with_probes)
 
@@ -261,9 +262,13 @@ def _enumerator(i):
     return 'Q%d' % i                      # 'Q' is not in ALPHA: never equal to a generated name
 
 
-def _abi_module(names, k, tmp):
+def _abi_module(names, k, tmp, uses_file=False):
     import cffi
     lines = []
+    if uses_file:
+        # an undeclared 'FILE' makes the generator add table entries of its own (typedef FILE,
+        # struct _IO_FILE) after the declared ones were collected
+        lines.append('int c25_uses_file(FILE *);')
     for i, n in enumerate(names):
         lines.append('struct %s { char Qf[%d]; };' % (n, i + 1))
         lines.append('enum %s { %s = %d };' % (n, _enumerator(i), i + 1))
@@ -293,7 +298,9 @@ def prop(case, ctx):
     with warnings.catch_warnings():
         warnings.simplefilter('ignore')
         _counter[0] += 1
-        ffi, lib, text = _abi_module(names, _counter[0], ctx.tmp)
+        ffi, lib, text = _abi_module(names, _counter[0], ctx.tmp, bool(case.get('file')))
+        if case.get('file'):
+            ctx.event('cdef-uses-FILE')
         _check(ffi, lib, names, probes, dict((n, 'ctse') for n in names), ctx, {'names': names, 'mode': 'ABI'})
         if case.get('api'):
             roles = dict((n, 'ctse'[i % 4]) for i, n in enumerate(sorted(names)))
